@@ -8,6 +8,7 @@ package queue
 
 import (
 	"context"
+	"fmt"
 	"sort"
 	"strings"
 	"testing"
@@ -167,4 +168,48 @@ func TestVerifC18Pipeline(t *testing.T) {
 	}, Run: c18pRun, Info: func(sc c18pScenario) ev.Info {
 		return ev.Info{Nontrivial: len(sc.Rewrites) > 0, Classes: []string{"level=" + sc.Level}}
 	}})
+}
+
+// ---- reports cannot trigger further reports -----------------------------------------------------------------
+
+type c18lScenario struct {
+	MaxTries int  `json:"max_tries"`
+	NRcpts   int  `json:"recipients"`
+	Partial  bool `json:"per_recipient_target"`
+	UTF8     bool `json:"smtputf8"`
+}
+
+// c18lRun: the bounce pipeline hands the report to the queue itself (as the stock configuration does for
+// senders that are not local) and the report cannot be delivered either.
+func c18lRun(sc c18lScenario) (vs []ev.V) {
+	plan := qPlan{Rcpt: map[string]*verifx.ErrNode{}}
+	var rcpts []string
+	for i := 0; i < sc.NRcpts; i++ {
+		r := fmt.Sprintf("rcpt%d@example.net", i)
+		rcpts = append(rcpts, r)
+		plan.Rcpt[r] = &verifx.ErrNode{Kind: "smtp", Code: 550, Ench: [3]int{5, 1, 1}, Msg: "no such user"}
+	}
+	qsc := qScenario{MaxTries: sc.MaxTries, Partial: sc.Partial, Bounce: "requeue", Msgs: []qMsg{{ID: "c18l", From: "sender@example.com", OriginalFrom: "sender@example.com", Rcpts: rcpts,
+		Header: "From: <sender@example.com>\r\nSubject: c18 loop\r\n", Body: "x\r\n", UTF8: sc.UTF8, Plans: []qPlan{plan}}}}
+	h := qRun(qsc, nil)
+	if h.Hang {
+		return []ev.V{ev.Vf("report-loop:never-settles", "the queue still holds messages after %v of virtual time; %d reports generated; %s", qHorizon, len(h.Reports), c01Events(h))}
+	}
+	if len(h.Reports) != 1 {
+		var about []string
+		for _, rep := range h.Reports {
+			about = append(about, fmt.Sprintf("to %v naming %v", rep.Rcpts, c01ReportedRcpts(rep.Raw)))
+		}
+		return []ev.V{ev.Vf(fmt.Sprintf("report-loop:%d-reports", len(h.Reports)), "one message failed and its failure report could not be delivered either: %d reports were generated (%s); a report about a report must never be made; %s",
+			len(h.Reports), strings.Join(about, "; "), c01Events(h))}
+	}
+	return nil
+}
+
+func TestVerifC18Loop(t *testing.T) {
+	qT = t
+	r := ev.Get("C18")
+	ev.Run(t, r, ev.Spec[c18lScenario]{Name: "report-about-report", N: r.Scale(1, 16, 30), Gen: func(t *rapid.T) c18lScenario {
+		return c18lScenario{MaxTries: rapid.IntRange(1, 3).Draw(t, "max_tries"), NRcpts: rapid.IntRange(1, 3).Draw(t, "nrcpts"), Partial: rapid.Bool().Draw(t, "partial"), UTF8: rapid.Bool().Draw(t, "utf8")}
+	}, Run: c18lRun, Info: func(sc c18lScenario) ev.Info { return ev.Info{Nontrivial: true} }})
 }
